@@ -40,6 +40,7 @@ def member_text(prog, ident=None, extra_comment=""):
         meta += f"id: {ident} "
     if prog.get("mode") == "OR":
         meta += "logic-mode: OR "
+    meta += prog.get("comment", "")
     meta += extra_comment
     return (f"~ {meta}~ " if meta else "") + body
 
